@@ -7,6 +7,7 @@ package c02
 
 import (
 	"fmt"
+	"strings"
 	"time"
 
 	"verif/engine/explore"
@@ -27,14 +28,32 @@ func init() {
 			"reads that return the session's own timeout error are retried by the application (the client arms a 10 s read deadline after each write); a timeout is not abandonment",
 			"goroutine switches happen only at synchronisation operations; sizes, MTUs and patterns come from the stated alphabets",
 		},
-		Units:          Units("C02", nil),
+		Units:          Units("C02", nil, ""),
 		QuickBudget:    80,
 		ThoroughBudget: 1200,
 	})
 }
 
 // Units builds the UDP scenario list; C13 and C14 run the same executions with wire monitors.
-func Units(prop string, mon Monitor) func(tier string) []runner.Unit {
+func Units(prop string, mon Monitor, only string) func(tier string) []runner.Unit {
+	return func(tier string) []runner.Unit {
+		all := unitsAll(prop, mon)(tier)
+		if only == "" {
+			return all
+		}
+		var out []runner.Unit
+		for _, u := range all {
+			for _, pre := range strings.Split(only, ",") {
+				if strings.HasPrefix(u.Name, pre) {
+					out = append(out, u)
+				}
+			}
+		}
+		return out
+	}
+}
+
+func unitsAll(prop string, mon Monitor) func(tier string) []runner.Unit {
 	return func(tier string) []runner.Unit {
 		pats := Patterns("quick")
 		var us []runner.Unit
